@@ -85,13 +85,13 @@ func sameObs(a, b *Step) bool {
 // only what it did itself (which listeners are open, which stopped
 // accepting) to know when to stop waiting. The judgement is TraceL.tla's.
 type lifeSim struct {
-	n, peer *psim.Node
-	ids     []string
-	ls      map[string]*lsn
-	exp     map[string]bool
-	out     []*Step
+	n, peer  *psim.Node
+	ids      []string
+	ls       map[string]*lsn
+	exp      map[string]bool
+	out      []*Step
 	slowStop bool
-	stopped bool
+	stopped  bool
 }
 
 func newLifeSim(connE1, connE2, expConn []string, slowStop bool) (*lifeSim, error) {
@@ -477,6 +477,65 @@ func runC16(sf *sched, seed int64, emit emitter) error {
 	return nil
 }
 
+// runBacklog: the path to a connected listener is congested to a standstill for a while (the relay stops
+// reading, uploads fill the buffers): a request routed to it in that state cannot even open a stream (the session's
+// write times out after 10 s) and is refused. That is a failed dial, not the end of the connection: when the
+// path flows again the listener must still be registered, advertised and served. Status = the request after the
+// congestion; DeltaMs / Served = duration and status of the probe during it.
+func runBacklog(emit emitter) error {
+	n, err := psim.StartNode(psim.NodeOpts{ID: "a", ProxyTimeout: 20 * time.Second})
+	if err != nil {
+		return err
+	}
+	defer n.Stop()
+	rel, err := psim.NewRelay(n.UpstreamAddr())
+	if err != nil {
+		return err
+	}
+	defer rel.Close()
+	u, err := psim.Listen(context.Background(), rel.Addr(), "e1", "u-congested", "", "")
+	if err != nil {
+		return err
+	}
+	defer u.Shutdown()
+	srv := n.Server.VerifUpstream()
+	if !psim.WaitFor(5*time.Second, func() bool { return srv.VerifOpenSessions() == 1 }) {
+		return fmt.Errorf("backlog scenario: the listener did not register")
+	}
+	rel.Freeze(true)
+	body := make([]byte, 512*1024)
+	var wg sync.WaitGroup
+	for i := 0; i < 80; i++ {
+		wg.Add(1)
+		go func() {
+			defer wg.Done()
+			psim.Request(n.ProxyAddr(), "header", "e1", "POST", "/c16-upload", nil, body)
+		}()
+	}
+	time.Sleep(1500 * time.Millisecond)
+	t0 := time.Now()
+	// (a patient client: the session's write timeout is 10 s)
+	pc := &http.Client{Timeout: 18 * time.Second, Transport: &http.Transport{DisableKeepAlives: true}}
+	preq, _ := http.NewRequest("GET", "http://"+n.ProxyAddr()+"/c16-probe", nil)
+	preq.Header.Set("x-piko-endpoint", "e1")
+	pst, pnote := -1, ""
+	if presp, err := pc.Do(preq); err == nil {
+		pst = presp.StatusCode
+		presp.Body.Close()
+	} else {
+		pnote = "probe: " + err.Error()
+	}
+	s := &Step{Op: "Backlog", DeltaMs: int(time.Since(t0) / time.Millisecond), Served: strconv.Itoa(pst), Note: pnote}
+	rel.Freeze(false)
+	wg.Wait()
+	time.Sleep(300 * time.Millisecond)
+	after := psim.Request(n.ProxyAddr(), "header", "e1", "GET", "/c16-after", nil, nil)
+	s.Status = after.Status
+	observeLife(n, s)
+	emit(s)
+	return nil
+}
+
 // runExpiry: a connection authenticated with an expiring token is closed by
 // the server at that expiry, not before - unless disconnect-on-expiry is off.
 // With tenant: the connection is authenticated under a tenant of the upstream port's tenant table.
@@ -522,6 +581,7 @@ func runStall(emit emitter) error {
 	time.Sleep(200 * time.Millisecond) // the deferred clean-up of the handler
 	observeLife(n, s)
 	emit(s)
+	rel.Close() // so that closing the black-holed listener does not wait for anything
 	return nil
 }
 
